@@ -231,8 +231,8 @@ pub fn check_case(c: &PermCase, full_up_to: usize, ctx: &mut Ctx) {
                 ),
                 format!(
                     "renumbering the registry with permutation {perm:?} changes the generated module: …{}… vs …{}…",
-                    truncate(&canon.module[lo.min(canon.module.len())..], 160),
-                    truncate(&o.module[lo.min(o.module.len())..], 160)
+canon.module.chars().skip(lo).take(160).collect::<String>(),
+                    o.module.chars().skip(lo).take(160).collect::<String>()
                 ),
                 replay(perm),
                 size,
